@@ -525,6 +525,44 @@ Crash ==
   /\ VolReset /\ verdict' = "none"
   /\ Emit([a |-> "crash"])
 
+\* killed in the middle of a step that makes several file-system mutations
+\*  - inside a command: targets 1..k-1 of the command are complete, target k has just been created (empty) or is half written
+CrashInExec(t, k, torn) ==
+  /\ Live(t) /\ tl[t].pc = "exec"
+  /\ LET r == RuleOf(t)
+         sc == [j \in DOMAIN r.src |-> IF Has(ws, r.src[j]) THEN ws[r.src[j]].c ELSE "MISSING"]
+         runs == r.kind # "fail" /\ \A j \in DOMAIN r.src : Has(ws, r.src[j])
+         written == {i \in DOMAIN r.tg : i # r.omit}
+     IN /\ runs /\ k \in written
+        /\ ws' = [p \in (DOMAIN ws) \cup {r.tg[i] : i \in {j \in written : j <= k}} |->
+                    IF \E i \in written : i < k /\ r.tg[i] = p
+                    THEN [c |-> Out(r, IdxOf(r.tg, p), sc, env), m |-> Stamp(IdxOf(r.tg, p)), x |-> r.x \/ (Has(ws, p) /\ ws[p].x)]
+                    ELSE IF p = r.tg[k]
+                    THEN [c |-> IF torn THEN "T[" \o Out(r, k, sc, env) \o "]" ELSE "", m |-> Stamp(k), x |-> Has(ws, p) /\ ws[p].x]
+                    ELSE ws[p]]
+        /\ Bump(k)
+        /\ VolReset /\ verdict' = "none"
+        /\ UNCHANGED <<ord, rules, env, cache, hist, fstab, rdir>>
+        /\ Emit([a |-> "crash", inexec |-> RuleId(r)])
+\*  - inside directory::init of the invocation that has just started: only a prefix of the directories exists, no table yet
+\*    (modelled as an alternative to StartBuild / StartClean: the invocation never gets further)
+CrashInInit(n) ==
+  /\ Idle /\ ~(rdir.root /\ rdir.cache /\ rdir.hist /\ rdir.tab # "absent")
+  /\ rdir' = [rdir EXCEPT !.root = TRUE, !.cache = @ \/ n >= 2, !.hist = @ \/ n >= 3]
+  /\ clock' = clock + 1 /\ VolReset /\ verdict' = "none"
+  /\ UNCHANGED <<ord, rules, env, ws, cache, hist, fstab>>
+  /\ Emit([a |-> "crash", inexec |-> ""])
+\*  - pre-repair behaviour ("torn_state"): state files were truncated and rewritten in place
+CrashInSave ==
+  /\ "torn_state" \in Defects /\ mode = "build"
+  /\ \/ /\ mj \in Tids /\ tl[mj].pc = "done" /\ tl[mj].result = "ok" /\ ~IsLeafT(mj)
+        /\ rdir' = [rdir EXCEPT !.htorn = @ \cup {RuleId(RuleOf(mj))}] /\ hist' = Del(hist, RuleId(RuleOf(mj))) /\ UNCHANGED fstab
+     \/ /\ mj = NL + NN + 1 /\ early = ""
+        /\ rdir' = [rdir EXCEPT !.tab = "torn"] /\ fstab' = EmptyF /\ UNCHANGED hist
+  /\ VolReset /\ verdict' = "none"
+  /\ UNCHANGED <<ord, rules, env, ws, cache, clock>>
+  /\ Emit([a |-> "crash", inexec |-> ""])
+
 (* ---------------- scheduling predicates (used by the MC / trace modules) ------- *)
 EnabledT(t) == IF mode = "build" THEN Live(t) /\ (tl[t].pc = "recv" => inbox[t][Len(tl[t].got) + 1] # <<>>)
                ELSE mode = "clean" /\ t \in DOMAIN tl /\ tl[t].pc = "cbak"
